@@ -1,0 +1,30 @@
+//go:build verif
+
+package config
+
+// Machine-checked contracts (comment-only; build tag `verif`); read by /verif/govc.
+
+// C04 / C07: a code identifier with compiled regexes has ALL of them compiled
+// (the invariant the matcher relies on: it dereferences every regex), and the
+// matcher is the conjunction, field by field, of "reference field empty or its
+// own regex matches the corresponding field", plus equality of Kind.
+
+//@ spec allCompiled(r *codeIdentifierRegex) bool = r.contextRegex != nil && r.packageRegex != nil && r.interfaceRegex != nil && r.typeRegex != nil && r.methodRegex != nil && r.fieldRegex != nil && r.receiverRegex != nil && r.valueMatchRegex != nil
+
+//@ func compileRegexes
+//@   property C04 C07
+//@   ensures all_or_none: result.computedRegexs == nil || allCompiled(result.computedRegexs)
+//@   ensures keeps_fields: result.Context == cid.Context && result.Package == cid.Package && result.Interface == cid.Interface && result.Method == cid.Method && result.Receiver == cid.Receiver && result.Field == cid.Field && result.Type == cid.Type && result.Kind == cid.Kind && result.ValueMatch == cid.ValueMatch
+
+//@ func compileRegexOrLiteral
+//@   property C04 C07
+//@   ensures never_nil: result != nil
+
+//@ func CodeIdentifier.equalOnNonEmptyFields
+//@   property C04 C07
+//@   requires cid != nil
+//@   requires cidRef.computedRegexs != nil ==> allCompiled(cidRef.computedRegexs)
+//@   safety
+//@   ensures conjunction: cidRef.computedRegexs != nil && cidRef.Interface == "" ==> (result <==> (cidRef.Kind == cid.Kind && (cidRef.Context == "" || cidRef.computedRegexs.contextRegex.MatchString(cid.Context)) && (cidRef.Package == "" || cidRef.computedRegexs.packageRegex.MatchString(cid.Package)) && (cidRef.Method == "" || cidRef.computedRegexs.methodRegex.MatchString(cid.Method)) && (cidRef.Receiver == "" || cidRef.computedRegexs.receiverRegex.MatchString(cid.Receiver)) && (cidRef.Field == "" || cidRef.computedRegexs.fieldRegex.MatchString(cid.Field)) && (cidRef.Type == "" || cidRef.computedRegexs.typeRegex.MatchString(cid.Type)) && (cidRef.ValueMatch == "" || cidRef.computedRegexs.valueMatchRegex.MatchString(cid.ValueMatch))))
+//@   ensures literal: cidRef.computedRegexs == nil && cidRef.Interface == "" ==> (result <==> (cidRef.Kind == cid.Kind && (cidRef.Context == "" || cidRef.Context == cid.Context) && (cidRef.Package == "" || cidRef.Package == cid.Package) && (cidRef.Method == "" || cidRef.Method == cid.Method) && (cidRef.Receiver == "" || cidRef.Receiver == cid.Receiver) && (cidRef.Field == "" || cidRef.Field == cid.Field) && (cidRef.Type == "" || cidRef.Type == cid.Type) && (cidRef.ValueMatch == "" || cidRef.ValueMatch == cid.ValueMatch)))
+//@   modifies nothing
